@@ -354,6 +354,131 @@ fn stress(bytes: &[u8], qs: &[Q], key: u64, case_hash: u64, st: &mut Stats) -> C
     Ok(())
 }
 
+// ---------------------------------------------------------------------------------------------
+// mass stage: very many *distinct* keys on ONE shared mapper and ONE shared cache
+
+#[derive(Clone, Debug, serde::Serialize, serde::Deserialize)]
+struct MassCase {
+    threads: usize,
+    per_thread: u64,
+    /// first key of the run (keys are consecutive from here, thread t owns the keys congruent to t)
+    start: u64,
+}
+
+/// (descriptor encoding, Java rendering) of the parameter / return alphabets over c16::FIXED_MAPPING
+const MASS_PARAMS: [(&str, &str); 9] = [
+    ("I", "int"),
+    ("J", "long"),
+    ("[I", "int[]"),
+    ("La/a;", "com.example.A"),
+    ("[[Lx/Long;", "org.Long2[][]"),
+    ("LI;", "com.example.Iface"),
+    ("Lé/ü;", "ü.Ö"),
+    ("Z", "boolean"),
+    ("Lzz/U;", "zz.U"),
+];
+const MASS_RETS: [(&str, &str); 7] = [("V", "void"), ("I", "int"), ("[J", "long[]"), ("La/a;", "com.example.A"), ("LI;", "com.example.Iface"), ("[[Lx/Long;", "org.Long2[][]"), ("Lzz/U;", "zz.U")];
+
+/// The i-th descriptor (bijective base-9 numeration of the parameter list, so all keys are distinct strings) and
+/// the formatted signature the statement of C16 prescribes for it.
+fn mass_key(mut i: u64, key: &mut String, want: &mut String) {
+    key.clear();
+    want.clear();
+    let ret = MASS_RETS[(i % 7) as usize];
+    i /= 7;
+    key.push('(');
+    want.push('(');
+    let mut first = true;
+    while i > 0 {
+        i -= 1;
+        let (e, j) = MASS_PARAMS[(i % 9) as usize];
+        key.push_str(e);
+        if !first {
+            want.push_str(", ");
+        }
+        want.push_str(j);
+        first = false;
+        i /= 9;
+    }
+    key.push(')');
+    want.push(')');
+    key.push_str(ret.0);
+    if ret.1 != "void" {
+        want.push_str(": ");
+        want.push_str(ret.1);
+    }
+}
+
+fn check_mass(c: &MassCase, st: &mut Stats) -> Check {
+    let bytes = pgverif::props::c16::FIXED_MAPPING.as_bytes();
+    let m = mapper(bytes, true)?;
+    let buf = write_cache(bytes)?;
+    let cache = parse_cache(&buf)?;
+    // the fast composer above is itself checked against the descriptor model of C16 on the first keys
+    {
+        let table: Vec<(&str, &str)> = vec![("a.a", "com.example.A"), ("x.Long", "org.Long2"), ("I", "com.example.Iface"), ("é.ü", "ü.Ö"), ("Lib", "Lib2")];
+        let lookup = |c: &str| table.iter().find(|(k, _)| *k == c).map(|(_, v)| v.to_string());
+        let (mut k, mut w) = (String::new(), String::new());
+        for i in (0..3000u64).chain((0..200).map(|j| c.start + j * 7919)) {
+            mass_key(i, &mut k, &mut w);
+            let d = pgverif::props::c16::nth_desc_pub(i);
+            if d.encode() != k || d.expected(&lookup).2 != w {
+                return Err(Fail::new("harness-self-check", format!("mass key composer disagrees with the descriptor model at {i}: {k} / {w}")));
+            }
+        }
+    }
+    let known = ["a.a", "x.Long", "I", "é.ü", "Lib"];
+    let originals = ["com.example.A", "org.Long2", "com.example.Iface", "ü.Ö", "Lib2"];
+    let threads = c.threads;
+    let barrier = Barrier::new(threads);
+    let bad: Vec<Option<String>> = std::thread::scope(|sc| {
+        let hs: Vec<_> = (0..threads)
+            .map(|t| {
+                let (m, cache, barrier) = (&m, &cache, &barrier);
+                sc.spawn(move || {
+                    let (mut k, mut w, mut name) = (String::new(), String::new(), String::new());
+                    barrier.wait();
+                    for n in 0..c.per_thread {
+                        let i = c.start + n * threads as u64 + t as u64;
+                        mass_key(i, &mut k, &mut w);
+                        let a = m.0.deobfuscate_signature(&k).map(|d| d.format_signature());
+                        if a.as_deref() != Some(w.as_str()) {
+                            return Some(format!("mapper: deobfuscate_signature({k:?}) = {a:?} on the shared instance, expected {w:?} (key #{i})"));
+                        }
+                        let a = cache.0.deobfuscate_signature(&k).map(|d| d.format_signature());
+                        if a.as_deref() != Some(w.as_str()) {
+                            return Some(format!("cache: deobfuscate_signature({k:?}) = {a:?} on the shared instance, expected {w:?} (key #{i})"));
+                        }
+                        // class keys: every 5th one is known, the others are distinct unknown names
+                        use std::fmt::Write;
+                        name.clear();
+                        let want_class = if n % 5 == 0 {
+                            name.push_str(known[(n / 5 % 5) as usize]);
+                            Some(originals[(n / 5 % 5) as usize])
+                        } else {
+                            let _ = write!(name, "q{:x}.K{}", i, i % 97);
+                            None
+                        };
+                        let (a, b) = (m.0.remap_class(&name), cache.0.remap_class(&name));
+                        if a != want_class || b != want_class {
+                            return Some(format!("remap_class({name:?}) = mapper {a:?} / cache {b:?} on the shared instance, expected {want_class:?}"));
+                        }
+                    }
+                    None
+                })
+            })
+            .collect();
+        hs.into_iter().map(|h| h.join().unwrap_or_else(|_| Some("a query thread panicked".into()))).collect()
+    });
+    st.evaluations += 4 * c.per_thread * threads as u64;
+    st.nontrivial(fnv_mix(c.start, &[threads as u8]));
+    st.class(&format!("mass: {} distinct signature keys and as many class keys on one shared mapper + cache, {} threads", c.per_thread * threads as u64, threads));
+    if let Some(Some(msg)) = bad.into_iter().find(|b| b.is_some()) {
+        return Err(Fail::new("shared-mass-answer-differs", msg));
+    }
+    Ok(())
+}
+
 fn main() {
     let args: Vec<String> = std::env::args().collect();
     pgverif::engine::install_panic_hook();
@@ -365,6 +490,30 @@ fn main() {
     if args.get(1).map(|s| s.as_str()) == Some("replay") {
         let text = std::fs::read_to_string(&args[2]).unwrap_or_default();
         let v: serde_json::Value = serde_json::from_str(&text).unwrap_or_default();
+        if v["stage"].as_str() == Some("mass") {
+            if let Ok(c) = serde_json::from_value::<MassCase>(v["case"].clone()) {
+                let mut st = Stats::new();
+                if let Err(f) = check_mass(&c, &mut st) {
+                    println!("VIOLATION property=C20 replay={}", args[2]);
+                    println!("  {}", f.msg);
+                    std::process::exit(1);
+                }
+                println!("replay C20: property holds on this case");
+                std::process::exit(0);
+            }
+        }
+        if v["stage"].as_str() == Some("scale") {
+            if let Ok(c) = serde_json::from_value::<pgverif::props::scale::ScaleCase>(v["case"].clone()) {
+                let mut st = Stats::new();
+                if let Err(f) = check_scale(&c, &mut st) {
+                    println!("VIOLATION property=C20 replay={}", args[2]);
+                    println!("  {}", f.msg);
+                    std::process::exit(1);
+                }
+                println!("replay C20: property holds on this case");
+                std::process::exit(0);
+            }
+        }
         let case: Result<MapCase, _> = serde_json::from_value(v["case"].clone());
         match case {
             Ok(c) => {
@@ -407,7 +556,17 @@ fn main() {
     ] {
         scale.push(pgverif::props::scale::ScaleCase { kind, n, prop: "C20".into() });
     }
+    // one long-lived shared pair of instances, tens of millions of distinct keys: any layer that identifies a key
+    // by less than the key itself (a truncated digest) sooner or later answers one key with another key's result
+    let per = ctx.cases(4_000_000, 60_000_000) as u64;
+    let mass = vec![MassCase { threads: 16, per_thread: per, start: 1 + (ctx.seed % 1_000_003) * 16 }];
     let ctx1 = Ctx { threads: 1, ..ctx.clone() };
+    {
+        let mut repm = Report::new("C20", "exploration", &ctx1);
+        repm.run_enum("mass", &mass, check_mass);
+        rep.stats.merge(std::mem::take(&mut repm.stats));
+        rep.violations.append(&mut repm.violations);
+    }
     let mut rep1 = Report::new("C20", "exploration", &ctx1);
     rep1.run_enum("scale", &scale, check_scale);
     rep.stats.merge(std::mem::take(&mut rep1.stats));
